@@ -19,6 +19,7 @@ FAMILIES = {
     "floodBs": {"quick": 50, "thorough": 1500},     # hostile scripted client floods a real server with small limits (rapid reset, refused streams, tiny/empty DATA, CONTINUATION, PING/SETTINGS, stream errors, oversize lists), slow / non-accepting application, blocked writes; dense statistics
     "floodBc": {"quick": 50, "thorough": 1500},     # hostile scripted server floods a real client (PUSH_PROMISE, 1xx, tiny/empty DATA, PING/SETTINGS, CONTINUATION, promise+reset)
     "inlineA": {"quick": 600, "thorough": 12000},   # C20: handle operations executed INSIDE the read / write / flush callbacks of the connection task (parked handles), real client <-> real server
+    "threadsA": {"quick": 1500, "thorough": 40000},   # C20: REAL parallel executions: connections and every request half on their own OS threads; handle call + log entry atomic under the transport's mutex, so the trace is a valid linearization
     "conformSend": {"quick": 40, "thorough": 1500},
     "conformStreams": {"quick": 150, "thorough": 3000},  # TLC simulation runs of MC_Streams (stream store / counters, server role) replayed on the real server
     "conformConn": {"quick": 400, "thorough": 6000},   # TLC simulation runs of MC_Conn (SETTINGS / PING / GOAWAY / shutdown machinery, both roles) replayed on the real library
@@ -76,7 +77,7 @@ PLAN = {
             "must_hit": ["C18.store_bound", "C18.recv_buffer_bound", "C18.send_buffer_bound", "C18.quota_counters", "C18.continuation_bound", "C18.owed_replies_bound"]},
     "C19": {"rules": ["C19."], "families": WIRE_AB + ["conformStreams"], "slices": [STREAMS_SLICE], "level": "model_checking",
             "must_hit": ["C19.forgotten", "C19.counts_idle", "C19.flow_idle", "C19.idle_close", "C19.no_premature_close"]},
-    "C20": {"rules": ["C"], "families": ["inlineA"], "slices": [SEND_SLICE], "level": "exploration", "all_known": True,
+    "C20": {"rules": ["C"], "families": ["inlineA", "threadsA"], "slices": [SEND_SLICE], "level": "exploration", "all_known": True,
             "must_hit": ["C01.data", "C02.stream_credit", "C03.conn_overcredit", "C16.stream_bound", "C17.single_rst", "C08.run_without_panic"]},
     "C17": {"rules": ["C17."], "families": WIRE_AB, "slices": [], "level": "exploration", "must_hit": ["C17.single_rst"]},
 }
